@@ -411,6 +411,57 @@ impl Agg {
     }
 }
 
+//------------ Crash handler -------------------------------------------------
+
+// A case that makes the process die by a signal (SIGABRT from a
+// non-unwinding panic such as a failed unsafe-precondition check, SIGSEGV,
+// SIGBUS, SIGILL) is reported as a violation: the handler runs on the
+// faulting thread, writes that thread's current case to a replay file,
+// prints the VIOLATION line and exits with status 1.
+thread_local! {
+    static CUR_CASE: RefCell<Option<(&'static str, &'static str, Vec<u8>)>> = const { RefCell::new(None) };
+}
+static CRASH_REPLAY_PATH: Mutex<Option<PathBuf>> = Mutex::new(None);
+
+pub fn set_current_case(prop: &'static str, sub: &'static str, bytes: &[u8]) {
+    CUR_CASE.with(|c| *c.borrow_mut() = Some((prop, sub, bytes.to_vec())));
+}
+pub fn clear_current_case() {
+    CUR_CASE.with(|c| *c.borrow_mut() = None);
+}
+
+extern "C" fn crash_handler(sig: libc::c_int) {
+    // best effort; we are about to die anyway
+    let info = CUR_CASE.try_with(|c| c.try_borrow().ok().and_then(|c| c.clone())).ok().flatten();
+    if let Some((prop, sub, bytes)) = info {
+        let fixed = CRASH_REPLAY_PATH.try_lock().ok().and_then(|g| g.clone());
+        let replaying = fixed.is_some();
+        let path = fixed.unwrap_or_else(|| out_dir().join(prop).join(format!("crash-{sub}-{:016x}.case", fnv(&bytes))));
+        if !replaying {
+            write_case(&path, prop, sub, &bytes, Some(&Violation::new(format!("crash:signal-{sig}"), "the process was killed by a signal while running this case (non-unwinding panic / memory fault)")));
+            write_min_evidence(prop, 1);
+        }
+        println!("sig=crash:signal-{sig}");
+        println!("VIOLATION property={prop} replay={}", path.display());
+        use std::io::Write;
+        let _ = std::io::stdout().flush();
+        unsafe { libc::_exit(1) };
+    }
+    unsafe {
+        libc::signal(sig, libc::SIG_DFL);
+        libc::raise(sig);
+    }
+}
+
+pub fn install_crash_handler(replay_path: Option<PathBuf>) {
+    *CRASH_REPLAY_PATH.lock().unwrap() = replay_path;
+    unsafe {
+        for s in [libc::SIGABRT, libc::SIGSEGV, libc::SIGBUS, libc::SIGILL] {
+            libc::signal(s, crash_handler as usize);
+        }
+    }
+}
+
 //------------ Watchdog ------------------------------------------------------
 
 struct Slot {
@@ -466,7 +517,9 @@ pub fn run_case(
         ..Default::default()
     };
     let _ = take_panics();
+    set_current_case(prop, sc.name, bytes);
     let r = guarded(sc.name, || (sc.run)(bytes, &mut ctx));
+    clear_current_case();
     let mut r = match r {
         Ok(r) => r,
         Err(v) => Err(v),
